@@ -1,33 +1,284 @@
 """Workload table of the orchestrator: which harness modes decide which property."""
-import json, os, subprocess, time
+import json, os, subprocess, time, shutil, re
 
 THREADS = [{"RAYON_NUM_THREADS": str(n)} for n in (1, 2, 3, 4, 2, 1, 8, 2)]
 THREADS_WIDE = [{"RAYON_NUM_THREADS": str(n)} for n in (1, 2, 3, 4, 8, 16, 5, 2)]
 
 ASSUME_COMMON = [
-    "decides only the executions produced: sampled histories of <= 4 replicas and <= 60 operations, documents over small identifier pools",
+    "decides only the executions produced: sampled histories of <= 4 replicas and <= 140 operations, documents over small identifier pools",
     "SHA-256 and 7-hex-digit revision tails are treated as collision free",
     "the Solid backend is not exercised (no network)",
 ]
+DISTINCT = " distinct = op-kind sequence x feature vector of the case."
 
 
 def engine(name, profile, rule, n, **kw):
     j = {"name": name, "mode": "engine", "args": {"profile": profile, "rule": rule}, "n": n, "env_by_shard": THREADS}
+    extra = kw.pop("args", None)
+    if extra:
+        j["args"].update(extra)
     j.update(kw)
     return j
 
 
+def mode(name, m, n, **kw):
+    j = {"name": name, "mode": m, "args": {}, "n": n, "env_by_shard": THREADS}
+    j.update(kw)
+    return j
+
+
+BACKENDS = ["mem", "mem+flate", "mem+brotli", "fs", "fs+flate", "fs+brotli", "sqlite", "sqlite+flate", "sqlite+brotli", "sqlitemem", "sqlitemem+flate", "sqlitemem+brotli"]
+
+# (RAYON_NUM_THREADS, capshift, permsalt, delay seed)
+C18_CONFIGS = [(1, 0, 0, 0), (2, 1, 11, 3), (16, 2, 12, 5), (5, 3, 13, 0), (3, 1, 14, 7), (8, 2, 15, 9),
+               (4, 3, 16, 11), (16, 0, 17, 13), (1, 2, 18, 0), (2, 3, 19, 15), (7, 1, 20, 17), (12, 2, 21, 19)]
+
+
+def c18_jobs():
+    out = []
+    for k, (thr, cs, ps, dl) in enumerate(C18_CONFIGS):
+        out.append({"name": "cfg%d" % k, "mode": "engine", "n": (48, 1600), "shards": 2 if k >= 6 else 3,
+                    "args": {"profile": "allops", "rule": "any", "capshift": cs, "permsalt": ps, "delay": dl, "hooktrace": 1, "fulldigests": 1},
+                    "env": {"RAYON_NUM_THREADS": str(thr)}, "config": {"RAYON_NUM_THREADS": thr, "capshift": cs, "permsalt": ps, "delay_seed": dl},
+                    "tier_min": "quick" if k < 6 else "thorough"})
+    return out
+
+
 CHECKS = {
-    "C03": {
-        "level": "exploration",
-        "floor": 20,
-        "rule": "engine histories (profiles content/general/lowlevel): after every commit -> Some on a replica that is not behind, a fresh Melda::new on the same storage must show identical objects/winners/conflicts/revision sets/document/heads/blocks; "
-                "reopen ops compare with the last clean state. non-trivial = the history committed >=2 revisions of one object in one commit, or its first commit carried an update record; distinct = op-kind sequence x feature vector",
+    "C01": {
+        "level": "exploration", "floor": 20,
+        "rule": "conflict-heavy and branching histories on 2-4 replicas end with an exchange to fixpoint (route a: all live replicas must hold the same keys and show the same objects/winners/conflicts/revision sets/document/heads); the final item set is then "
+                "delivered to fresh observers by meld into an empty replica (b), file copy with one refresh per file (c), random batches (d), copy-all then open (e), (c)/(e) under permuted listings (f), and a random partition between two empty replicas that then "
+                "exchange to fixpoint; every route must equal the live replica and the reference model computed from the raw files. non-trivial = >=2 commits, some object had >=2 live leaves, and some route delivered a block before one of its parents or packs." + DISTINCT,
+        "assumptions": ASSUME_COMMON + ["array order is compared between replicas/routes, not against a model of the merge"],
+        "jobs": [mode("routes-conflict", "c01", (640, 24000), args={"profile": "conflict"}), mode("routes-graph", "c01", (320, 12000), args={"profile": "graph"}),
+                 mode("routes-lowlevel", "c01", (160, 6000), args={"profile": "lowlevel"})],
+    },
+    "C02": {
+        "level": "exploration", "floor": 10,
+        "rule": "item files of finished multi-replica histories are delivered one at a time to an open replica in adversarial orders (blocks newest-first then packs; packs then blocks; rotated) and random permutations, with a refresh after every file; for every prefix: "
+                "per-block status (hook) == membership in the reference model's causally complete closure, objects/winners/conflicts/heads == reference(closure), incremental state == fresh Melda::new on the same storage; after the last file == the source replica. "
+                "Engine histories with partial file copies add status-vs-closure checks after every op. non-trivial = some prefix held back a block that a later prefix applied." + DISTINCT,
         "assumptions": ASSUME_COMMON,
-        "jobs": [engine("content", "content", "C03", (640, 40000)), engine("general", "general", "C03", (320, 20000)), engine("lowlevel", "lowlevel", "C03", (160, 8000))],
+        "jobs": [mode("delivery-conflict", "c02", (160, 6000), args={"profile": "conflict", "steps": 36}), mode("delivery-graph", "c02", (96, 4000), args={"profile": "graph", "steps": 40}),
+                 engine("partial-copies", "graph", "C02", (640, 30000))],
+    },
+    "C03": {
+        "level": "exploration", "floor": 20,
+        "rule": "engine histories (profiles content/general/lowlevel/long): after every commit -> Some on a replica that is not behind, a fresh Melda::new on the same storage must show identical objects/winners/conflicts/revision sets/document/heads/blocks; "
+                "reopen ops compare with the last clean state. non-trivial = the history committed >=2 revisions of one object in one commit, or its first commit carried an update record." + DISTINCT,
+        "assumptions": ASSUME_COMMON,
+        "jobs": [engine("content", "content", "C03", (960, 60000)), engine("general", "general", "C03", (480, 30000)), engine("lowlevel", "lowlevel", "C03", (240, 12000)), engine("long", "long", "C03", (48, 1600))],
+    },
+    "C04": {
+        "level": "exploration", "floor": 20,
+        "rule": "every update(D) of every history is followed by read(): when no flattened array was in conflict before the update the serde_json serialisation must equal D with identifiers added to tracked objects, byte for byte; "
+                "otherwise the multiset of tracked objects (id, content) must equal D's. The same D is submitted again and state, has_staging and the stage export must not move; commit with nothing staged must return None and write no key. "
+                "Generators: hostile strings/ids/numbers, objects moving between arrays, flattened keys appearing/disappearing/changing kind, reverts to older documents. One dedicated case exercises known finding F10. "
+                "non-trivial = >=2 exact read-backs from a state with history and >=1 meld." + DISTINCT,
+        "assumptions": ASSUME_COMMON + ["'!'-leading identifiers are generated for array elements only; the single-object shape is the dedicated F10 case"],
+        "jobs": [engine("kind", "kind", "C04", (960, 60000)), engine("general", "general", "C04", (480, 30000)), engine("conflict", "conflict", "C04", (480, 30000)), engine("lowlevel", "lowlevel", "C04", (240, 12000)),
+                 mode("f10", "c04f10", (1, 1), shards=1)],
+    },
+    "C05": {
+        "level": "exploration", "floor": 50,
+        "rule": "unit: random revision trees (chains crossing index 9->10->100, forks, equal indices, dangling parents, resolution markers, deletions, several roots, char-code/empty digests) inserted into RevisionTree through add (checked after every insertion) and "
+                "unvalidated_add+validate, in ALL insertion orders for trees of <=6 revisions and 50 sampled orders above; leaves/winner must equal the rule computed from the (revision,parent) set alone. The comparison rule itself is checked on revision pools (c19unit). "
+                "system: in every observation of every history, winner/conflicting/in_conflict == the rule applied to the library's own revision sets and to the trees parsed from the raw block files. "
+                "non-trivial (unit) = >=2 live leaves, a marker, an index >=10 or a dangling subtree; (system) = >=2 live leaves seen or an index >= 10." + DISTINCT,
+        "assumptions": ASSUME_COMMON,
+        "jobs": [mode("trees", "c05unit", (24000, 2400000)), mode("order", "c19unit", (64, 3200)), engine("conflict", "conflict", "C05", (640, 30000)), engine("long", "long", "C05", (64, 3200))],
+    },
+    "C06": {
+        "level": "exploration", "floor": 50,
+        "rule": "unit: merge_arrays(m,n) for ALL ordered pairs of duplicate-free sequences over a 5-letter alphabet up to length 5 (quick) / 6 letters up to 6 (thorough), plus random 3-4-way folds as the library folds the ordered leaf set: duplicate-free, set = union, base order kept, "
+                "merged order kept when the common elements agree. system: 2-3 replicas branch from a common commit, edit two flattened arrays concurrently (insert/remove/reorder/move between arrays/modify), sync; with leaf orders from the hook: every non-deleted id of some live leaf "
+                "occurs exactly once in the whole document, deleted ids nowhere, the winner's order kept, both orders kept for two compatible leaves. non-trivial (system) = >=2 live leaves on an array." + DISTINCT,
+        "assumptions": ASSUME_COMMON,
+        "jobs": [mode("pairs", "c06unit", (326, 1957)), mode("merges", "c06sys", (6400, 400000))],
+    },
+    "C07": {
+        "level": "exploration", "floor": 20,
+        "rule": "at the end of conflict-heavy histories (optionally with an edit staged on top) every conflicted object and EVERY live leaf is resolved on a forked replica (copy of storage + replayed stage): object leaves conflict set; plain objects read as the value at the chosen leaf, "
+                "a chosen deletion makes the object deleted and absent from the document; choosing the winner leaves the document unchanged; for arrays the chosen leaf's surviving elements keep their order. Each fork commits and a fresh replica that melds it must show the same state; "
+                "two forks that chose different leaves exchange and must converge. In-history resolutions add the same checks. non-trivial = a leaf set of >=3, a deleted leaf chosen, or an array descriptor resolved." + DISTINCT,
+        "assumptions": ASSUME_COMMON + ["the merged order produced by resolving an array is not modelled; only the clauses the property states are asserted"],
+        "jobs": [mode("forks", "c07", (480, 24000), args={"profile": "conflict"}), mode("forks-lowlevel", "c07", (160, 8000), args={"profile": "lowlevel"}), engine("inline", "conflict", "C07", (480, 24000))],
+    },
+    "C08": {
+        "level": "exploration", "floor": 20,
+        "rule": "restated for a finite observer: no operation reaches logical quiescence (all threads parked in futex without timeout, no CPU or context-switch progress over 10 samples, CALL without RET on the progress pipe) and none panics or aborts, on well-formed input. "
+                "Workload: every public method in every state (commit/refresh/read/resolve/unstage/snapshot/stage/replay/reload_until/low-level object calls while arrays and objects are in conflict and changes are staged), worker pools of 1,2,3,4,5,8,16 threads, seeded 0-200us delays "
+                "injected before the per-object locks inside the parallel sections. thorough adds Miri (deadlock / data race / UB detection per schedule seed). non-trivial = a commit ran with >=1 flattened array in conflict." + DISTINCT,
+        "assumptions": ASSUME_COMMON + ["a livelock that burns CPU forever would be reported inconclusive by the wall-clock watchdog, not as a violation"],
+        "jobs": [engine("allops", "allops", "C08", (1920, 120000), env_by_shard=THREADS_WIDE, args_by_shard=[{"delay": d} for d in (0, 3, 5, 0, 7, 9, 11, 13)]),
+                 engine("lowlevel", "lowlevel", "C08", (640, 40000), env_by_shard=THREADS_WIDE, args_by_shard=[{"delay": d} for d in (0, 21, 0, 23)]),
+                 engine("conflict", "conflict", "C08", (640, 40000), env_by_shard=THREADS_WIDE),
+                 {"name": "miri", "external": "miri", "tier": "thorough", "scripts": 8}],
+    },
+    "C09": {
+        "level": "fault_enumeration", "floor": 10,
+        "rule": "per sampled 2-3 replica history (updates, several updates per commit, melds, resolutions): the baseline run records every storage write; then (crash) a snapshot taken before EVERY write is reopened: it must open, equal the reference model of its causally complete closure, and equal "
+                "a replica opened on exactly that closure; (fault) the history is re-run once for EVERY single failing write position and every pair of consecutive positions: a failed commit must leave the staged revisions and the document untouched, the retried commit must produce the same per-step "
+                "state digests and the same reopened final states as the uninterrupted twin; runs whose fault hit a meld must still reopen to the reference state of their storage. Ordering (pack before block, local writer) is checked on every commit of every engine history. "
+                "non-trivial = faults hit both a pack write and a block write of a commit. distinct = write pattern of the history.",
+        "assumptions": ASSUME_COMMON + ["each item write is atomic (fully present or absent), as the property assumes; torn files are C10 damage", "meld copies blocks before packs on the unchanged tree; the property covers that by 'blocks whose dependencies did not arrive are ignored', which the crash monitor decides"],
+        "jobs": [mode("faults", "c09", (160, 6000)), engine("ordering", "general", "any", (320, 12000))],
+    },
+    "C10": {
+        "level": "fault_enumeration", "floor": 10,
+        "rule": "per finished history, for EVERY stored item: delete, empty, truncate to len-1 and two sampled lengths, 8 sampled single-bit flips (thorough: every byte position for items <= 4 KiB); 6 random deletion subsets; 18 junk injections (bad names, out-of-range indices, wrong hashes, valid hashes of other bytes); "
+                "by two routes (open fresh; refresh on a replica that had loaded an intact prefix). The call must return an error, or the state must equal the reference model of the intact causally complete subset and a replica opened on the intact subset, never panic, and every value returned must hash to the digest in its revision id. "
+                "live corruption: bits of an already indexed pack are flipped behind the adapter with MELDA_DATA_CACHE_CAP=1; get_value must be Err or exactly the recorded value. non-trivial = damage hit an item other blocks depend on.",
+        "assumptions": ASSUME_COMMON + ["no attempt is made to forge an item whose damaged bytes still hash to its name"],
+        "jobs": [mode("damage", "c10", (160, 4000), args={"profile": "conflict"}), mode("damage-dense", "c10", (0, 400), args={"profile": "conflict", "dense": 1}, tier="thorough")],
+    },
+    "C11": {
+        "level": "exploration", "floor": 20,
+        "rule": "online monitor on the instrumented adapter after every operation on every replica: each key is <sha256(bytes)>.pack or <i>-<sha256(bytes)>.delta with i = 1 + max parent index parsed from the bytes; a write to an existing key carries identical bytes; a full scan finds every key seen before with the same hash; "
+                "one key has one hash on all replicas (meld's parse-and-reserialise is checked byte for byte). commit(info) draws hostile metadata (nested, 1e300, -0.0, 5e-324, u64::MAX, escapes, control/non-ASCII, 300 keys, keys named like block fields). non-trivial = >=1 meld and >=2 commits." + DISTINCT,
+        "assumptions": ASSUME_COMMON,
+        "jobs": [engine("general", "general", "C11", (800, 40000)), engine("conflict", "conflict", "C11", (480, 24000)), engine("graph", "graph", "C11", (480, 24000))],
+    },
+    "C12": {
+        "level": "exploration", "floor": 20,
+        "rule": "serialised read() before vs after commit (incl. its automatic array resolution), stage_full_snapshot, meld alone, and refresh/reload on a replica that is not behind and has nothing staged (for these also full state); a refused refresh/reload must leave everything untouched. "
+                "Histories are conflict-heavy with elements removed on one branch and kept on another, staged changes present. non-trivial = a commit or snapshot ran with >=1 flattened array in conflict." + DISTINCT,
+        "assumptions": ASSUME_COMMON,
+        "jobs": [engine("maint", "maint", "C12", (960, 60000)), engine("conflict", "conflict", "C12", (480, 30000)), engine("lowlevel", "lowlevel", "C12", (320, 16000))],
+    },
+    "C13": {
+        "level": "exploration", "floor": 20,
+        "rule": "at each commit -> Some(A): |A| = 1, the adapter log shows exactly one new block, its parsed parents == the heads observed just before, index > every parent's, heads after == A, info as passed. At every observation: applied set (hook) ancestor-closed, heads == applied blocks not named as parent by an applied block "
+                "== reference model heads; get_delta's info/parents/packs == what the reference parses from the raw block on every replica holding it. Branching histories with 3-4 replicas, merges of several heads, commits after time travel, partial delivery. non-trivial = a commit had >=2 parents." + DISTINCT,
+        "assumptions": ASSUME_COMMON,
+        "jobs": [engine("graph", "graph", "C13", (960, 60000)), engine("conflict", "conflict", "C13", (480, 30000))],
+    },
+    "C14": {
+        "level": "exploration", "floor": 20,
+        "rule": "every replica records (heads -> state) whenever it is clean; reload_until(H) for a recorded H must show that state, heads == H, objects/winners == the reference model restricted to H's ancestors, and Melda::new_until must agree; reload() afterwards returns to the latest state; "
+                "replicas may also stay in the past and commit from there. After every op 5 random (object, revision) pairs are looked up: value and parent must equal the first recorded ones and the value must hash to the digest in the revision id. non-trivial = >=1 travel and (a multi-head target or >=5 commits)." + DISTINCT,
+        "assumptions": ASSUME_COMMON,
+        "jobs": [engine("graph", "graph", "C14", (960, 60000)), engine("general", "general", "C14", (320, 20000)), engine("long", "long", "C14", (48, 1600))],
+    },
+    "C15": {
+        "level": "exploration", "floor": 20,
+        "rule": "unstage must restore exactly the last committed-or-refreshed observation (state, revision sets with staged flags, heads), leave has_staging false and stage() None; stage -> unstage -> replay_stage must restore state, staged flags and the order-normalised export; commit -> Some leaves nothing staged; "
+                "refresh/reload/reload_until with staged revisions must refuse and change nothing (a replica holding only unreferenced staged objects may refresh but must not drop them). Staged sets include creations, update chains, deletions, resurrections, array patches, resolutions, snapshots and low-level object calls. "
+                "non-trivial = a round trip with >=3 staged revisions." + DISTINCT,
+        "assumptions": ASSUME_COMMON,
+        "jobs": [engine("stage", "stage", "C15", (960, 60000)), engine("lowlevel", "lowlevel", "C15", (480, 30000))],
+    },
+    "C16": {
+        "level": "exploration", "floor": 50,
+        "rule": "unit: apply_diff_patch(a, make_diff_patch(a,b)) == b and patch empty iff a == b for ALL ordered pairs of sequences with repetition over 3 letters up to length 5 (quick) / 4 letters up to 6 (thorough), plus random arrays of <=200 elements with block moves, reversals, repeats. "
+                "system: chains of 60-120 successive versions of one flattened array (remove first repeatedly, empty/refill, reverse, rotate, identical consecutive edit scripts) with commits, snapshots and reopen, under MELDA_ARRAYDESCRIPTORS_CACHE_CAP in {1,2,3,16}: read() == last submitted and, "
+                "queried in random order, verif_array_order(rev) == the array submitted when rev was created, for every revision ever created. non-trivial (system) = chain length >=20 with >=1 reopen." + DISTINCT,
+        "assumptions": ASSUME_COMMON,
+        "jobs": [mode("pairs", "c16unit", (364, 5461)), mode("chains", "c16chain", (320, 16000))],
+    },
+    "C17": {
+        "level": "exploration", "floor": 20, "post": "post_c17",
+        "rule": "contract: random sequences of write / whole read / non-empty in-range ranged read / list-by-suffix (\"\", .delta, .pack, other, partial suffixes) with empty, 1-byte, 5 kB incompressible and compressible values against memory, directory, SQLite file and SQLite in-memory, each plain / Deflate / Brotli, "
+                "compared with a first-write-wins map; persistent backends are dropped and reopened mid-sequence and at the end. replica: the same op script (engine 'general') runs over all 12 backends; the per-op state/graph digest sequence must equal the memory baseline, including reopen on a new adapter object. "
+                "non-trivial = >=5 keys (contract) / script with >=2 commits compared on all backends." + DISTINCT,
+        "assumptions": ASSUME_COMMON + ["keys are item-like names: ASCII, >= 2 characters, no '/', not containing '.flate'/'.brotli'"],
+        "jobs": [mode("contract", "c17contract", (480, 24000), args={"ops": 300})] +
+                [engine("replica-" + b.replace("+", "-"), "general", "any", (32, 1200), args={"backend": b, "fulldigests": 1, "steps": 30}, shards=2, env={"RAYON_NUM_THREADS": "2"}, env_by_shard=None) for b in BACKENDS] +
+                [{"name": "memcheck-sqlite", "external": "memcheck", "tier": "thorough"}],
+    },
+    "C18": {
+        "level": "exploration", "floor": 10, "post": "post_c18",
+        "rule": "differential across processes: the same logical op script (profile allops) is executed by 6 (quick) / 12 (thorough) child processes that differ in RAYON_NUM_THREADS (1..16), both cache capacities (rotation of {1,2,3,16}), listing-permutation seed and delay-hook seed, each with fresh RandomState hash seeds; "
+                "after every op the state digest (objects, winners, conflicts, revision sets, document, staging) and graph digest (head indices, statuses, parent counts; no block names) are logged and all sequences must be identical. The trace hook records in which order and on which worker the parallel sections "
+                "reached their objects; a script counts as non-trivial only if its children showed >=2 distinct interleavings. thorough adds Miri on single-replica scripts. distinct = script index.",
+        "assumptions": ASSUME_COMMON,
+        "jobs": c18_jobs() + [{"name": "miri", "external": "miri", "tier": "thorough", "scripts": 12, "regexfree": True}],
+    },
+    "C19": {
+        "level": "exploration", "floor": 20,
+        "rule": "unit: pools of 60 revisions built only through the system's constructors (new, new_updated, new_deleted, new_resolved, empty/char-code digests, chains up to index 120): Revision::from(r.to_string()) == r and prints identically, equal Hash when equal, child/deleted/resolved identifiers equal the canonical "
+                "formula (index+1, digest, first 7 hex of sha256(parent text)) and depend only on (digest, parent text); for all pairs and triples: exactly one of <,==,>, == iff equal strings, transitivity. system: two replicas in the same state apply the same updates independently -> identical revision sets; after exchanging their "
+                "(different) blocks nothing is in conflict and no leaf is added. Every revision string any history exposes must round-trip. non-trivial = pool with index >=10 and a marker / twin history with two heads after exchange." + DISTINCT,
+        "assumptions": ASSUME_COMMON,
+        "jobs": [mode("pools", "c19unit", (160, 16000)), mode("twins", "c19twins", (1600, 160000)), engine("roundtrip", "general", "any", (320, 16000))],
     },
 }
 
 
+# ------------------------------------------------------------------------------ check-level post-processing
+def _group_by_case(records, prefix):
+    by = {}
+    for j in records:
+        if j["job"].startswith(prefix) and "digest_seq" in j:
+            by.setdefault(j["case"], {})[j["job"]] = j
+    return by
+
+
+def _first_diff(a, b):
+    for k, (x, y) in enumerate(zip(a or [], b or [])):
+        if x != y:
+            return k
+    return min(len(a or []), len(b or []))
+
+
+def post_c17(spec, records):
+    msgs, out = [], list(records)
+    by = _group_by_case(records, "replica-")
+    compared = 0
+    for case, d in sorted(by.items()):
+        base = d.get("replica-mem")
+        if base is None:
+            continue
+        for jn, j in d.items():
+            j["nontrivial"] = False
+        bad = []
+        for jn, j in d.items():
+            if jn == "replica-mem":
+                continue
+            compared += 1
+            if j["digest_seq"] != base["digest_seq"] or j.get("aborted"):
+                k = _first_diff(base.get("digests"), j.get("digests"))
+                bad.append("%s differs from memory at op %s (%s)" % (jn, k, (j.get("trace") or ["?"] * (k + 1))[min(k, len(j.get("trace") or ["?"]) - 1)][:120] if j.get("trace") else "?"))
+        rec = {"t": "case", "job": "replica-differential", "case": case, "synthetic": True, "verdict": "violated" if bad else "held", "nontrivial": len(d) == len(BACKENDS) and base.get("features", {}).get("commits", 0) >= 2,
+               "fp": "script%d" % case, "features": {}, "counters": {"c17_backend_comparisons": len(d) - 1}, "violations": [], "shard": base.get("shard", 0)}
+        if bad:
+            rec["violations"].append({"prop": "C17", "sig": "C17/replica-state-differs-across-backends", "detail": "; ".join(bad)[:1500]})
+            rec["argv"] = None
+        out.append(rec)
+    return out, msgs, {"replica_scripts_compared_on_all_backends": len(by), "backend_pair_comparisons": compared}
+
+
+def post_c18(spec, records):
+    msgs, out = [], list(records)
+    by = _group_by_case(records, "cfg")
+    inter_total, scripts_multi = 0, 0
+    configs = {j["name"]: j.get("config") for j in spec["jobs"] if j.get("config")}
+    for case, d in sorted(by.items()):
+        names = sorted(d)
+        base = d[names[0]]
+        for jn, j in d.items():
+            j["nontrivial"] = False
+        inters = set(j.get("interleaving") for j in d.values())
+        inter_total += len(inters)
+        bad = []
+        for jn in names[1:]:
+            j = d[jn]
+            if j["digest_seq"] != base["digest_seq"]:
+                k = _first_diff(base.get("digests"), j.get("digests"))
+                bad.append("config %s %s differs from %s %s at op %s" % (jn, configs.get(jn), names[0], configs.get(names[0]), k))
+        multi = len(inters) >= 2
+        scripts_multi += 1 if multi else 0
+        rec = {"t": "case", "job": "cross-config", "case": case, "synthetic": True, "verdict": "violated" if bad else "held", "nontrivial": multi and len(d) >= 2 and base.get("features", {}).get("commits", 0) >= 2,
+               "fp": "script%d" % case, "features": {}, "counters": {"c18_config_comparisons": len(d) - 1, "c18_distinct_interleavings": len(inters),
+                                                                      "c18_hook_events": sum(j.get("hook_events", 0) for j in d.values())}, "violations": [], "shard": base.get("shard", 0)}
+        if bad:
+            rec["violations"].append({"prop": "C18", "sig": "C18/state-depends-on-configuration", "detail": "; ".join(bad)[:1500]})
+        out.append(rec)
+    return out, msgs, {"scripts_compared": len(by), "configurations": {k: v for k, v in configs.items()}, "distinct_interleavings_total": inter_total, "scripts_with_2plus_interleavings": scripts_multi}
+
+
+# ------------------------------------------------------------------------------ external jobs (Miri, memcheck)
 def run_external(job, root, workdir, seed, tier, binpath):
-    raise NotImplementedError
+    import external
+    return external.run(job, root, workdir, seed, tier, binpath)
